@@ -389,6 +389,22 @@ def run_call(call):
             from sqlglot.dialects.dialect import Dialect
 
             return ["ok", sorted(Dialect.classes)]
+        if op == "classes_iter":
+            # enumerate the registry and instantiate every dialect (what a "list the supported dialects" helper does)
+            from sqlglot.dialects.dialect import Dialect
+
+            seen = []
+            for name, k in Dialect.classes.items():
+                seen.append([name, type(k()).__name__])
+            return ["ok", sorted(seen)]
+        if op == "load_many":
+            from sqlglot.dialects.dialect import DIALECT_MODULE_NAMES, Dialect
+
+            got = []
+            for name in sorted(DIALECT_MODULE_NAMES):
+                if name not in call["skip"]:
+                    got.append(Dialect.get_or_raise(name).__class__.__name__)
+            return ["ok", got]
     except Deadlock:
         raise
     except Exception as e:  # noqa
